@@ -45,7 +45,11 @@ CHECKS["C02"] = dict(
          "is the old UIDNEXT and names the appended message. Tied to the code by step-by-step comparison of generated "
          "histories (restarts, deliveries, packing) and by a ledger oracle over white-box snapshots; UIDVALIDITY of "
          "deleted/recreated (also subscribed, also with inferiors) and renamed mailboxes is checked on the real commands; the "
-         "ledger and binding oracles also run on histories with deliveries the server cannot see yet (mtime unchanged).",
+         "ledger and binding oracles also run on histories with deliveries the server cannot see yet (mtime unchanged). "
+         "Message numbers are positive and strictly ascending in every reachable world (Proofs/MboxKeys.v), hence every file a "
+         "resync takes in - a copy or another process's delivery - is found under its own number with its own content and a fresh "
+         "UID (COPYUID/APPENDUID by number, Proofs/CopyUid.v; the tail-of-the-UID-list variant is refuted); on the implementation: "
+         "deliveries dropped into the destination during COPY/MOVE/APPEND, sparse folders with a batch of arrivals then a restart.",
     note=MBOX_NOTE + " RENAME/DELETE are not in Model/Mbox.v (implementation-side oracle only); crash points belong to C11.", ref="6/C02")
 CHECKS["C03"] = dict(
     technique="Coq step-relation proof (binding of UID to content is stable over any history) + differential correspondence with content-tagged messages",
